@@ -538,9 +538,8 @@ def run(ctx):
 
 
 def _pool_map(fn, items):
-    import multiprocessing as mp
-    with mp.get_context("fork").Pool(min(16, max(1, len(items)))) as pool:
-        return pool.map(fn, items, chunksize=1)
+    from core import fork_map
+    return fork_map(fn, items, nproc=min(16, max(1, len(items))), chunksize=1)
 
 
 # ------------------------------------------------------------------------------------------ shrink / replay
